@@ -9,6 +9,7 @@ use std::collections::{BTreeMap, HashMap};
 use std::io::Write;
 
 mod d_cf;
+mod d_cfg;
 mod d_embed;
 mod d_entry;
 mod d_pipe;
@@ -123,6 +124,7 @@ fn main() {
     "cf" => d_cf::run(&args),
     "rx" => d_rx::run(&args),
     "embed" => d_embed::run(&args),
+    "cfg" => d_cfg::run(&args),
     x => {
       eprintln!("unknown sub {}", x);
       std::process::exit(2);
